@@ -52,7 +52,9 @@ def run_one(path, res):
         evf = os.path.join(VERIF, "evidence", prop + ".json")
         evb = open(evf).read() if os.path.exists(evf) else None
         rdir = os.path.join(VERIF, "replays", prop)
-        shutil.rmtree(rdir, ignore_errors=True)
+        keep = rdir + ".keep-%d" % os.getpid()      # replay files of a run against /repo itself are not ours to delete
+        if os.path.isdir(rdir):
+            os.rename(rdir, keep)
         t0 = time.time()
         env = dict(os.environ, VERIF_REPO=sc, VERIF_JOBS=os.environ.get("VERIF_JOBS", "8"), VF_LOCK_HELD="1")
         e = subprocess.run([sys.executable, os.path.join(VERIF, "check.py"), prop, "--tier", "quick"], env=env, capture_output=True, text=True)
@@ -80,6 +82,8 @@ def run_one(path, res):
                     per[sub] = per.get(sub, 0) + 1; kept += 1
             shutil.rmtree(rdir, ignore_errors=True)
         out["runs"][prop]["regress_records"] = kept
+        if os.path.isdir(keep):
+            shutil.rmtree(rdir, ignore_errors=True); os.rename(keep, rdir)
         lk.close()
     res[name] = out
     shutil.rmtree(sc, ignore_errors=True)
@@ -106,9 +110,11 @@ def main():
         name = os.path.basename(path)[:-5]
         if want and name.split("-")[0] not in want:
             continue
-        if not want and name in res:
+        if not want and name in load_results():
             continue
-        run_one(path, res)
+        one = {}
+        run_one(path, one)
+        res = load_results(); res.update(one)      # another instance may have written meanwhile
         json.dump(res, open(RES, "w"), indent=1)
 
 
